@@ -7,10 +7,31 @@ Local Open Scope string_scope.
 Open Scope Z_scope.
 
 (* nnf() preserves the standard semantics (all node types, constants, empty
-   and singleton And/Or, double negation). *)
-Theorem C11_nnf : forall f env, eval env (nnf f) = eval env f.
+   and singleton And/Or, double negation, exactly-one groups at both
+   polarities) under every assignment that gives the auxiliary variables of
+   the groups of more than 4 variables the value of their definition ... *)
+Theorem C11_nnf : forall f env, consistentb env (fdefs f) = true ->
+  eval env (nnf f) = eval env f.
 Proof. exact nnf_eval. Qed.
 Print Assumptions C11_nnf.
+
+(* ... which any assignment can be made to do by changing it on auxiliary
+   variables only ... *)
+Theorem C11_nnf_extend : forall f e0, exists env,
+  (forall v, vdummy v = false -> env v = e0 v) /\ consistentb env (fdefs f) = true.
+Proof. exact fdefs_extend. Qed.
+Print Assumptions C11_nnf_extend.
+
+(* ... under every assignment when the formula has no exactly-one group ... *)
+Theorem C11_nnf_core : forall f env, no_unique f = true -> eval env (nnf f) = eval env f.
+Proof. exact nnf_eval_core. Qed.
+Print Assumptions C11_nnf_core.
+
+(* ... and in one direction under every assignment: the auxiliary variables are
+   only used where the group must hold (a negated group is encoded pairwise). *)
+Theorem C11_nnf_sound : forall f env, eval env (nnf f) = true -> eval env f = true.
+Proof. exact nnf_sound. Qed.
+Print Assumptions C11_nnf_sound.
 
 (* nnf() returns a constant or a formula made of literals, And, Or with no And
    directly in an And, no Or directly in an Or, at least two operands. *)
@@ -29,7 +50,8 @@ Theorem C11_nnf_idem : forall f neg, nnf (nnfp neg f) = nnfp neg f.
 Proof. exact nnf_idem. Qed.
 Print Assumptions C11_nnf_idem.
 
-Theorem C11_nnf_go : forall f k, (2 * depth f < k)%nat -> nnf_go k f = Some (nnf f).
+Theorem C11_nnf_go : forall f k, no_unique f = true -> (2 * depth f < k)%nat ->
+  nnf_go k f = Some (nnf f).
 Proof. exact nnf_go_nnf. Qed.
 Print Assumptions C11_nnf_go.
 
@@ -39,9 +61,9 @@ Theorem C11_desugar_ok : forall s, fv_okb (desugar s) = true.
 Proof. exact fv_okb_desugar. Qed.
 Print Assumptions C11_desugar_ok.
 
-(* asCnf, AST level (any formula of the AST: And/Or/Not/Var/constants, hence
-   Implies/Eq/Xor; the dummies of Unique are ordinary variables here). *)
-Theorem C11_cnf_complete_form : forall f, fv_okb f = true -> forall env, eval env f = true ->
+(* asCnf, AST level. *)
+Theorem C11_cnf_complete_form : forall f, fv_okb f = true -> forall env,
+  consistentb env (fdefs f) = true -> eval env f = true ->
   exists m, List.length m = List.length (v_all (c_vars (as_cnf f))) /\
             sat_cnf m (c_clauses (as_cnf f)) = true /\
             forall v i, tbl_get (v_all (c_vars (as_cnf f))) v = Some i ->
@@ -54,7 +76,7 @@ Theorem C11_cnf_sound_form : forall f, fv_okb f = true -> forall m dflt,
 Proof. exact cnf_sound_formb. Qed.
 Print Assumptions C11_cnf_sound_form.
 
-(* asCnf, public API level (exactly-one groups have their standard meaning). *)
+(* asCnf, public API level: no hypothesis. *)
 Theorem C11_cnf_complete : forall s env, seval env s = true ->
   exists m, List.length m = List.length (v_all (c_vars (as_cnf (desugar s)))) /\
             sat_cnf m (c_clauses (as_cnf (desugar s))) = true /\
@@ -63,23 +85,25 @@ Theorem C11_cnf_complete : forall s env, seval env s = true ->
 Proof. exact cnf_complete. Qed.
 Print Assumptions C11_cnf_complete.
 
-Theorem C11_cnf_sound : forall s, positive_unique s = true -> forall m dflt,
+Theorem C11_cnf_sound : forall s m dflt,
   sat_cnf m (c_clauses (as_cnf (desugar s))) = true ->
   seval (names_of (as_cnf (desugar s)) m dflt) s = true.
 Proof. exact cnf_sound. Qed.
 Print Assumptions C11_cnf_sound.
 
 (* Two exactly-one groups of a formula that share an auxiliary variable define
-   it identically (was refuted before the names were quoted, bf.go:347-354). *)
+   it identically (was refuted before the names were quoted, bf.go:374-381). *)
 Theorem C11_clash_free : forall s, clash_free s = true.
 Proof. exact clash_free_all. Qed.
 Print Assumptions C11_clash_free.
 
-(* Solve, over any decision procedure satisfying the contract of Spec/Solver.v. *)
+(* Solve, over any decision procedure satisfying the contract of Spec/Solver.v:
+   no model exactly when the formula is false under every assignment; otherwise
+   the returned assignment, completed arbitrarily, makes the formula true. *)
 Theorem C11_solve : forall solve, solver_ok solve -> forall s,
   match bf_solve solve (desugar s) with
   | None => forall env, seval env s = false
-  | Some mp => positive_unique s = true -> forall dflt, seval (complete mp dflt) s = true
+  | Some mp => forall dflt, seval (complete mp dflt) s = true
   end.
 Proof. exact solve_correct. Qed.
 Print Assumptions C11_solve.
@@ -87,14 +111,14 @@ Print Assumptions C11_solve.
 Theorem C11_solve_ref : forall s,
   match solve_ref (desugar s) with
   | None => forall env, seval env s = false
-  | Some mp => positive_unique s = true -> forall dflt, seval (complete mp dflt) s = true
+  | Some mp => forall dflt, seval (complete mp dflt) s = true
   end.
 Proof. exact solve_ref_correct. Qed.
 Print Assumptions C11_solve_ref.
 
 (* The result binds exactly the named variables that survive constant folding,
    once each: the Go map does not depend on the iteration order and no auxiliary
-   variable can hide a user variable (was refuted before bf.go:428). *)
+   variable can hide a user variable (was refuted before bf.go:458). *)
 Theorem C11_solve_bindings : forall solve s mp, bf_solve solve (desugar s) = Some mp ->
   NoDup (map fst mp) /\
   forall n, In n (map fst mp) <-> In (pb_var n) (fvars (nnf (desugar s))).
@@ -108,45 +132,21 @@ Theorem C11_eval_go : forall m f,
 Proof. exact eval_go_eval. Qed.
 Print Assumptions C11_eval_go.
 
-(* Open finding (D15): [positive_unique] is necessary.  A negated exactly-one
-   group of 5 names: the formula is false under every assignment and Solve
-   returns an assignment. *)
-Theorem C11_neg_unique_refuted : exists s mp,
-  positive_unique s = false /\
-  solve_ref (desugar s) = Some mp /\
-  seval (complete mp (fun _ => false)) s = false /\
-  (forall env, seval env s = false).
-Proof. exact neg_unique_refuted. Qed.
-Print Assumptions C11_neg_unique_refuted.
-
-(* The hypothesis is satisfiable (every connective, a group of 6 names in a
-   positive position, small groups under Eq and under a negation). *)
-Definition C11_ex : sform :=
-  SAnd [SOr [SVar "x"; SUnique ["a"; "b"; "c"; "d"; "e"; "f"]];
-        SImplies (SVar "x") (SNot (SVar "a"));
-        SEq (SVar "y") (SUnique ["a"; "b"; "c"]);
-        SXor (SVar "x") (SNot (SUnique ["d"; "e"]));
-        SOr []; SAnd []; STrue; SNot SFalse].
-
-Example C11_ex_hyps : positive_unique C11_ex = true /\ fv_okb (desugar C11_ex) = true.
-Proof. vm_compute. repeat split. Qed.
-
+(* Examples (every connective; groups of 6 names in positive and negative
+   positions, under Eq and Xor). *)
 Definition C11_ex2 : sform :=
   SAnd [SOr [SVar "x"; SUnique ["a"; "b"; "c"; "d"; "e"; "f"]];
         SImplies (SVar "x") (SNot (SVar "a"));
-        SEq (SVar "y") (SUnique ["a"; "b"; "c"]);
+        SEq (SVar "y") (SUnique ["a"; "b"; "c"; "d"; "e"]);
         SXor (SVar "x") (SNot (SUnique ["d"; "e"]))].
 
-Example C11_ex2_hyps : positive_unique C11_ex2 = true.
-Proof. vm_compute. reflexivity. Qed.
+Example C11_ex2_hyps : fv_okb (desugar C11_ex2) = true /\ positive_unique C11_ex2 = false.
+Proof. vm_compute. repeat split. Qed.
 
 Example C11_ex2_solve : exists mp, solve_ref (desugar C11_ex2) = Some mp /\
   seval (complete mp (fun _ => false)) C11_ex2 = true /\
   seval (complete mp (fun _ => true)) C11_ex2 = true.
 Proof. eexists. vm_compute. repeat split. Qed.
-
-Example C11_ex_unsat : solve_ref (desugar C11_ex) = None.
-Proof. vm_compute. reflexivity. Qed.
 
 Example C11_and_empty : solve_ref (desugar (SAnd [])) = Some [].
 Proof. vm_compute. reflexivity. Qed.
@@ -154,8 +154,17 @@ Proof. vm_compute. reflexivity. Qed.
 Example C11_or_empty : solve_ref (desugar (SOr [])) = None.
 Proof. vm_compute. reflexivity. Qed.
 
-(* The witnesses of the two former findings now behave (same answers as the
-   real bf.Solve at 7f1b83d). *)
+(* The witnesses of the three former findings now behave (same answers as the
+   real bf.Solve at ac47465). *)
+Example C11_neg_unique_fixed : solve_ref (desugar neg_unique_witness) = None.
+Proof. vm_compute. reflexivity. Qed.
+
+Example C11_neg_unique_fixed2 :
+  let s := SNot (SUnique ["a"; "b"; "c"; "d"; "e"]) in
+  exists mp, solve_ref (desugar s) = Some mp /\
+             exactly_one (map (complete mp (fun _ => false)) ["a"; "b"; "c"; "d"; "e"]) = false.
+Proof. eexists. vm_compute. split; reflexivity. Qed.
+
 Example C11_clash_fixed :
   solve_ref (desugar clash_witness) =
   Some [("a-b", true); ("c", false); ("d", false); ("e", false); ("f", false);
